@@ -4,6 +4,8 @@
 package userfunc
 
 import (
+	"sync"
+
 	"github.com/hashicorp/hcl/v2"
 	"github.com/zclconf/go-cty/cty"
 	"github.com/zclconf/go-cty/cty/function"
@@ -44,13 +46,16 @@ func decodeUserFunctions(body hcl.Body, blockType string, contextFunc ContextFun
 	// first call to getBaseCtx will populate context, and then the same
 	// context will be used for all subsequent calls. It's assumed that
 	// all functions in a given body should see an identical context.
+	// The returned functions may be called from several goroutines at once,
+	// so the context is populated under a sync.Once.
 	var baseCtx *hcl.EvalContext
+	var baseCtxOnce sync.Once
 	getBaseCtx := func() *hcl.EvalContext {
-		if baseCtx == nil {
+		baseCtxOnce.Do(func() {
 			if contextFunc != nil {
 				baseCtx = contextFunc()
 			}
-		}
+		})
 		// baseCtx might still be nil here, and that's okay
 		return baseCtx
 	}
